@@ -453,10 +453,9 @@ package server
 //@ loop 1 invariant (req != nil && istype(req.NetworkInstance, *spb.GetRequest_Name)) && loopi == 1 && recvd(stopCh) == old(recvd(stopCh)) && (req.Aft == spb.AFTType_ALL || req.Aft == spb.AFTType_MPLS) ==> forall k in dom(s.masterRIB.niRIB[req.GetName()].r.Afts.LabelEntry) :: old(len(sent(msgCh))) <= getpos_mpls[k] && getpos_mpls[k] < len(sent(msgCh)) && msg_mpls(sent(msgCh)[getpos_mpls[k]], req.GetName()) && key_mpls(sent(msgCh)[getpos_mpls[k]]) == k
 //@ loop 1 invariant (req != nil && istype(req.NetworkInstance, *spb.GetRequest_Name)) && loopi == 1 && recvd(stopCh) == old(recvd(stopCh)) && (req.Aft == spb.AFTType_ALL || req.Aft == spb.AFTType_NEXTHOP_GROUP) ==> forall k in dom(s.masterRIB.niRIB[req.GetName()].r.Afts.NextHopGroup) :: old(len(sent(msgCh))) <= getpos_nhg[k] && getpos_nhg[k] < len(sent(msgCh)) && msg_nhg(sent(msgCh)[getpos_nhg[k]], req.GetName()) && key_nhg(sent(msgCh)[getpos_nhg[k]]) == k
 //@ loop 1 invariant (req != nil && istype(req.NetworkInstance, *spb.GetRequest_Name)) && loopi == 1 && recvd(stopCh) == old(recvd(stopCh)) && (req.Aft == spb.AFTType_ALL || req.Aft == spb.AFTType_NEXTHOP) ==> forall k in dom(s.masterRIB.niRIB[req.GetName()].r.Afts.NextHop) :: old(len(sent(msgCh))) <= getpos_nh[k] && getpos_nh[k] < len(sent(msgCh)) && msg_nh(sent(msgCh)[getpos_nh[k]], req.GetName()) && key_nh(sent(msgCh)[getpos_nh[k]]) == k
-//@ assigns convFailed, sent(msgCh), sent(errCh), sent(doneCh), recvd(stopCh), gotNI, getpos_v4, getpos_v6, getpos_mpls, getpos_nhg, getpos_nh
+//@ assigns convFailed, convEverFailed, sent(msgCh), sent(errCh), sent(doneCh), recvd(stopCh), gotNI, getpos_v4, getpos_v6, getpos_mpls, getpos_nhg, getpos_nh
 //@ props C07 C12:safety C11:lock C12:ensures#nil-req C12:ensures#empty-name C12:ensures#unknown-instance C12:ensures#unsupported-table C12:ensures#rib-untouched C12:ensures#done-once
 // ---- END Get (C07) ----
-
 // ---- server construction: the options decide how the RIB is gated, which instances exist and which hooks are installed;
 // New establishes the invariants every RPC handler requires of the master RIB (ribReady, except the locks and the clock).
 //@ unit hasDisableCheckFn
